@@ -122,8 +122,19 @@ def pt1(proj, rep):
     if norm and norm[-1].lineno < asg[outn][0].lineno:
         rep.ok('PT1', f'{f.qual}[keep set]', f'{K} = sorted(set({K})) before the legs are built', m, norm[-1])
     else:
-        rep.undecided('PT1', f'{f.qual}[keep set]', f'`{K}` is not recognisably sorted(set(..)) before the legs are built', m, f.node, text='keep set')
-        n -= 1
+        before = [st for st in kdefs if st.lineno < asg[outn][0].lineno]
+        last = before[-1] if before else None
+        sorts = lambda e: any(isinstance(c, ast.Call) and _txt(c.func).split('.')[-1] in ('sorted', 'sort', 'unique', 'argsort') for c in ast.walk(e))
+        later_sort = any(isinstance(c, ast.Call) and isinstance(c.func, ast.Attribute) and c.func.attr == 'sort' and _txt(c.func.value) == K for c in ast.walk(f.node))
+        seq = last is not None and (isinstance(last.value, (ast.List, ast.ListComp, ast.Tuple)) or (
+            isinstance(last.value, ast.Call) and _txt(last.value.func) in ('list', 'tuple') and not any(
+                isinstance(c, ast.Call) and _txt(c.func) in ('set', 'frozenset') for c in ast.walk(last.value))))
+        if last is not None and seq and not sorts(last.value) and not later_sort and any(isinstance(x, ast.Name) and x.id == K for x in ast.walk(last.value)):
+            rep.violation('PT1', f'{f.qual}[keep set]', f'`{_txt(last)[:70]}` keeps the caller\'s order of `{K}`: an unsorted subset (1, 0) returns the subsystem-permuted operator; '
+                          f'the kept subsystems come out in ascending order only through sorted(..)', m, last)
+        else:
+            rep.undecided('PT1', f'{f.qual}[keep set]', f'`{K}` is not recognisably sorted(set(..)) before the legs are built', m, f.node, text='keep set')
+            n -= 1
     # (a) shared legs over the complement
     n += 1
     loops = [st for st in body if isinstance(st, ast.For) and isinstance(st.target, ast.Name)
